@@ -286,7 +286,7 @@ class DocutilsRenderer(RendererProtocol):
         lineno: int,
         inline: bool = False,
         temp_root_node: None | nodes.Element = None,
-        heading_offset: int = 0,
+        heading_offset: int | None = None,
     ) -> None:
         """Render unparsed text (appending to the current node).
 
@@ -295,6 +295,7 @@ class DocutilsRenderer(RendererProtocol):
         :param inline: whether the text is inline or block
         :param temp_root_node: If set, allow sections to be created as children of this node
         :param heading_offset: offset heading levels by this amount
+            (if None, keep the offset of the enclosing render)
         """
         tokens = (
             self.md.parseInline(text, self.md_env)
@@ -314,7 +315,8 @@ class DocutilsRenderer(RendererProtocol):
         @contextmanager
         def _restore():
             current_heading_offset = self._heading_offset
-            self._heading_offset = heading_offset
+            if heading_offset is not None:
+                self._heading_offset = heading_offset
             if temp_root_node is not None:
                 # we need to temporarily set the root node,
                 # and we also want to restore the level_to_section mapping at the end
